@@ -34,3 +34,8 @@ claim("C12", "channel-discipline, lockset and single-call-site rules over the sc
       "Decides the structural footprint of the scheduler property: sends on a channel that is closed somewhere share a mutex with the close (or no such close exists); request/acknowledge channels are unbuffered; one dispatch call site, on the timer branch, after removal of that very entry under the lock; one scheduler goroutine; every slot-list access holds the mutex; Add inserts before notifying; the synchronous part of the queue's dispatch callback cannot block; Close stops the wheel before waiting; the panic handler only renames. The interleaving space is not explored.",
       "trusts go/types, go/cfg; a race without one of these structural footprints is invisible to this check", "DESIGN.md §3 C12")
 PENDING.pop("C12", None)
+
+claim("C03", "relational typestate analysis over go/cfg (method inlining, deferred closures replayed at exits, error nil-ness and constant-flag refinement) of Session.delivery for all library-callable methods × entry states; fan-out completeness, commit-order and acquire/release pairing queries",
+      "Decides on every abstract path (entry states {Nil,Open} for MAIL/RCPT/RSET/QUIT, {Open} for DATA, per assumption A1 pinned to the go-smtp version): the open delivery is never overwritten or dropped while open, never used/closed when not open, Reset/Logout leave nothing open; the stored sender is immutable while open; pipeline Commit/Abort close every started target delivery; Commit only after successful body preparation, loop check and Body; success reply only after successful Commit; a taken permit is released with the same key or owned by the open delivery whose clean-up releases it; late-started target deliveries are recorded. What a target's Abort undoes is not decided.",
+      "trusts go/types, go/cfg; A1 about go-smtp's command sequencing (version pinned, check fails if go.mod resolves another version)", "DESIGN.md §3 C03")
+PENDING.pop("C03", None)
